@@ -1227,7 +1227,7 @@ fn cmd_monitor(types: &str, dir: &str) {
             }
         } else if let Some(want) = e.strip_prefix("accept ") {
             let want_core = want.strip_suffix(" KEEPS").unwrap_or(want);
-            if c == want_core {
+            if c == want_core || (want_core.ends_with(" err2") && c.starts_with(&format!("{} ", want_core))) {
                 class = if want.ends_with(" KEEPS") { "accept:pair-kept".to_string() } else if cs[i].starts_with("pair") { "accept:pair".to_string() } else { "accept".to_string() };
             } else if c.starts_with("err") {
                 class = "accept-missed".to_string();
